@@ -22,6 +22,20 @@ class SkippableError(ValueError):
   pass
 
 
+# What a producer returns: its name in the specification; in the run the first two producers return FALSY values (an empty
+# count, an empty string) - a return value is a value whatever its truth.
+_FALSY_RETURNS = {'p1': 0, 'p2': ''}
+_BACK = {repr(v): k for k, v in _FALSY_RETURNS.items()}
+
+
+def ret_of(p):
+  return _FALSY_RETURNS.get(p, p)
+
+
+def unret(v):
+  return _BACK.get(repr(v), v)
+
+
 class ItemIter:
   """Harness iterator of producer p: yields (p, 1..n), raises at index fail_at, returns p."""
 
@@ -44,7 +58,7 @@ class ItemIter:
         raise self.exc(f'{self.p} fails at {self.fail_at}')
       if self.i == self.n:
         if self.returns:
-          raise StopIteration(self.p)
+          raise StopIteration(ret_of(self.p))
         raise StopIteration()
       self.i += 1
       return (self.p, self.i)
@@ -117,7 +131,7 @@ def project(q, sch, received, ended, extra=None):
       waitE=[t.name for t in q._enqueue_lock.waiters], waitD=[t.name for t in q._dequeue_lock.waiters],
       notified=notified,
       start=q._enqueue_start, stop=q._enqueue_stop, maxenq=q._max_enqueuer,
-      exc=q._exception is not None, exhausted=q._exhausted, returned=list(q._returned),
+      exc=q._exception is not None, exhausted=q._exhausted, returned=[unret(v) for v in q._returned],
       received={c: [list(x) for x in v] for c, v in received.items()},
       ended={c: v for c, v in ended.items()},
       **(extra() if extra else dict(ownL='none', srcIdx=0, cnt={c: 0 for c in received})),
@@ -208,7 +222,7 @@ def run_config(cfg: dict, policy, *, record_states=False, max_steps=5000, timeou
             if steps >= 0 and d._cnt == steps:
               ended[c] = ['stopped']
             else:
-              ended[c] = ['stop', list(e.args)]
+              ended[c] = ['stop', [unret(v) for v in e.args]]
           except sched.Aborted:
             raise
           except BaseException as e:  # pylint: disable=broad-exception-caught
@@ -237,7 +251,7 @@ def run_config(cfg: dict, policy, *, record_states=False, max_steps=5000, timeou
                 batches[c].append(list(b))
                 received[c].extend(b)
           except StopIteration as e:
-            ended[c] = ['stop', list(e.args)]
+            ended[c] = ['stop', [unret(v) for v in e.args]]
           except sched.Aborted:
             raise
           except BaseException as e:  # pylint: disable=broad-exception-caught
